@@ -312,7 +312,8 @@ def _nbhd_parts():
     if _args(fn) != ["self", "radius", "include_center"]:
         raise T.Broken("parameters of Cell._neighborhood")
     st = _stmts(fn)
-    if len(st) != 4 or not all(isinstance(x, ast.If) for x in st[:3]) or ast.unparse(st[3]) != "return neighborhood":
+    if len(st) != 4 or not all(isinstance(x, ast.If) for x in st[:3]) \
+            or not (isinstance(st[3], ast.Return) and isinstance(st[3].value, ast.Name)):
         raise T.Broken("expected: if <invalid>: raise; if <base>: ... else: ...; if <centre>: ... else: ...; return neighborhood")
     return fn, st
 
@@ -324,8 +325,8 @@ def _rec_call(st):
     if len(calls) != 1:
         raise T.Broken("expected exactly one recursive call")
     c = calls[0]
-    if not (isinstance(c.func.value, ast.Name) and c.func.value.id == "neighbor"):
-        raise T.Broken("recursive call is not on `neighbor`")
+    if not (isinstance(c.func.value, ast.Name) and c.func.value.id != "self"):
+        raise T.Broken("recursive call is not on the loop variable")   # which variable: fixed by the skeleton (v1)
     args = {}
     names = ["radius", "include_center"]
     for i, a in enumerate(c.args):
